@@ -314,16 +314,40 @@ _AMEND = {
              "so groups existing only through unexpected or only through nonreporting units keep their votes; the reporting flag is 1 "
              "on the reporting frame and 0 on the other two; missing vote counts of passed-through units count as 0;")],
     "C09": [("baseline left join and both unreporting policies.",
-             "baseline left join and both unreporting policies (the zero policy also fills every results-derived column).")],
+             "baseline left join and both unreporting policies (the zero policy also fills every results-derived column). A compared "
+             "column may be MISSING in the truth table (a unit whose expected vote is missing is predicted, not lost: F24); the margin "
+             "baseline - which turns the weights into the two party vote - is recomputed even when the file already has it (F25)."),
+            ("(exhaustive, boundary cases included)", "(exhaustive, boundary and missing values included)")],
+    "C06": [("the ranks are the statement's own formulas.",
+             "the ranks are the statement's own formulas; every call / stop adjustment of a contest-level bound is a monotone map of "
+             "the bound (evaluated on 7 regions x call code x stop flag), so nested levels stay nested (F29); with fewer than two "
+             "estimable contest effects the sampler of contest effects returns before it takes an empty variance (F28).")],
+    "C15": [("and the unit / aggregate bound formulas with W, SS and the inflation term;",
+             "and the unit / aggregate bound formulas with W, SS and the inflation term in location-scale form mu + sd * z (finite for "
+             "sd = 0; handing the scale to ppf is NaN there: F27);")],
+    "C16": [("prepare_data runs once per featurizer object.",
+             "prepare_data runs once per featurizer object; the interval regressions' fitting rows are the featurizer's fitting rows "
+             "(F22); rows whose intercept is zeroed for a separate-state model must get a constant column of their own (today they do "
+             "not: open known finding K4).")],
+    "C18": [("one put per returned table.",
+             "one put per returned table; the client attributes the national summary combines with the stored results (save flag, election "
+             "id, office, unit type, model) are assigned only after the previous run's results have been dropped, so a call that fails "
+             "midway cannot leave old results next to new settings (F26).")],
     "C10": [("non-modelled and unexpected units are in neither model frame (truth table);",
              "non-modelled and unexpected units are in neither model frame and in no outlier model's input (truth table);")],
     "C11": [("so the run cannot fail on the unknown classification.",
              "so the run cannot fail on the unknown classification; the id parsers that recover its keys are total (no unguarded "
-             "index into the split id); every quotient by a group turnout total in the bootstrap aggregate functions maps 0/0 to 0.")],
+             "index into the split id); every quotient by a group turnout total in the bootstrap aggregate functions maps 0/0 to 0; the "
+             "per-contest vectors the national summary reads must be restricted to contests that have baseline units (today a group made "
+             "of unexpected units alone counts as a contest: open known finding K5).")],
     "C12": [("(sample, default_rng, generator draws, scipy bootstrap, stdlib random, clocks)",
              "(sample, default_rng, generator draws, scipy bootstrap and distribution.rvs, stdlib random, clocks)")],
     "C14": [("duplicate ids raise ModelClientException;",
-             "duplicate ids (counted per unit id, not per identical row) raise ModelClientException;")],
+             "duplicate ids (counted per unit id, not per identical row, in the combined data before the exclusion rules: F30) raise "
+             "ModelClientException;"),
+            ("the three estimators' minimum and training-fraction formulas equal the documented ones;",
+             "the conformal estimators' minimum and training-fraction formulas equal the documented ones, the bootstrap's minimum is a "
+             "positive number that has to account for the width of the design (today the constant 10: open known finding K6);")],
     "C19": [("each frame stamped with its own version's time in the handler's timezone;",
              "each frame stamped, inside the loop that receives it together with its version, with that version's time in the "
              "handler's timezone;")],
